@@ -199,8 +199,9 @@ def build_cases(bases, tier, rng):
         for cls, (gen, kinds, listed) in F.CLASSES.items():
             sites = list(gen(wb, a))
             strata[f"sites.{cls}"] = strata.get(f"sites.{cls}", 0) + len(sites)
-            if tier == "quick" and len(sites) > 2:
+            if tier == "quick" and len(sites) > 3:
                 keep = {0, len(sites) - 1} if len(sites) > 40 else {rng.randrange(len(sites))}
+                keep.add(rng.randrange(len(sites)))
                 keep.add(rng.randrange(len(sites)))
                 sites = [s for i, s in enumerate(sites) if i in keep]
             for site, wbf, pattern in sites:
